@@ -443,9 +443,7 @@ impl GitignoreBuilder {
         if line.starts_with("#") {
             return Ok(self);
         }
-        if !line.ends_with("\\ ") {
-            line = line.trim_right();
-        }
+        line = trim_trailing_spaces(line);
         if line.is_empty() {
             return Ok(self);
         }
@@ -529,6 +527,35 @@ impl GitignoreBuilder {
         // release.
         self.case_insensitive = yes;
         Ok(self)
+    }
+}
+
+/// Removes trailing spaces that are not quoted with a backslash. Only
+/// spaces are insignificant (`man gitignore`), and a quoted space protects
+/// everything before it, e.g., `foo\ ` followed by two spaces is `foo\ `.
+fn trim_trailing_spaces(line: &str) -> &str {
+    let bytes = line.as_bytes();
+    let mut last_space = None;
+    let mut i = 0;
+    while i < bytes.len() {
+        match bytes[i] {
+            b' ' => {
+                if last_space.is_none() {
+                    last_space = Some(i);
+                }
+            }
+            b'\\' => {
+                // The next byte, if any, is quoted.
+                i += 1;
+                last_space = None;
+            }
+            _ => last_space = None,
+        }
+        i += 1;
+    }
+    match last_space {
+        Some(i) => &line[..i],
+        None => line,
     }
 }
 
